@@ -3,6 +3,10 @@
 // (ApdVerif/Gen/Consts.lean, ApdVerif/Gen/Leaf.lean). The Lean theorems in Props/GenTie.lean are
 // then re-checked against what the code says now. A function that leaves the supported subset
 // makes the translator fail (exit 1) naming it.
+//
+// A second group (imp.go, imp_*.go; flag -imp, on by default) translates the core methods of Decimal and Context
+// into store-level programs over Decimal cells (ApdVerif/Gen/Imp.lean); Props/GenTieImp.lean proves each of them
+// equal, on every heap and for every aliasing of the pointers, to the hand-written program of Imp/Ops.lean.
 package main
 
 import (
@@ -42,6 +46,7 @@ func fail(format string, a ...interface{}) string {
 func main() {
 	repo := flag.String("repo", "/repo", "repository root")
 	out := flag.String("out", ".", "output directory")
+	impOn := flag.Bool("imp", true, "also emit the store-level programs (Imp.lean)")
 	fpOut := flag.String("fingerprints", "", "also write a structural fingerprint of every top-level declaration to this JSON file")
 	flag.Parse()
 	matches, _ := filepath.Glob(filepath.Join(*repo, "*.go"))
@@ -93,6 +98,9 @@ func main() {
 	writeFile(filepath.Join(*out, "Consts.lean"), genConsts())
 	for _, g := range leafGroups {
 		writeFile(filepath.Join(*out, g.file+".lean"), genLeaf(g))
+	}
+	if *impOn {
+		writeFile(filepath.Join(*out, "Imp.lean"), genImp())
 	}
 	if len(errs) > 0 {
 		for _, e := range errs {
